@@ -452,7 +452,18 @@ void sim_set_phase(const char *what)
 	snprintf(g_phase, sizeof(g_phase), "%s", what);
 }
 
+/* a single library call that burns this much CPU without returning is a hang; MSan/TSan builds run the
+ * SM9 pairing an order of magnitude slower, so they get a longer leash */
+#if defined(GMSIM_MSAN) || defined(GMSIM_TSAN)
+#define HANG_CPU_NS   (90LL * 1000000000LL)
+#else
 #define HANG_CPU_NS   (20LL * 1000000000LL)
+#endif
+static uint64_t g_progress;
+void sim_progress(void)      /* harness loops call this between library calls made within one scheduling step */
+{
+	__atomic_add_fetch(&g_progress, 1, __ATOMIC_RELAXED);
+}
 #define RUNAWAY_BYTES (48u << 20)
 
 static int64_t cpu_now(void)
@@ -470,7 +481,7 @@ static void *watchdog_main(void *arg)
 	for (;;) {
 		struct timespec d = { 0, 200 * 1000 * 1000 };
 		nanosleep(&d, NULL);
-		uint64_t st = __atomic_load_n(&g_sim.step, __ATOMIC_RELAXED);
+		uint64_t st = __atomic_load_n(&g_sim.step, __ATOMIC_RELAXED) + (__atomic_load_n(&g_progress, __ATOMIC_RELAXED) << 40);
 		int64_t c = cpu_now();
 		size_t out = cap_size(0) + cap_size(1);
 		if (st != last_step) { last_step = st; cpu_at_change = c; }
@@ -478,7 +489,7 @@ static void *watchdog_main(void *arg)
 		int runaway = out > RUNAWAY_BYTES;
 		if (hang || runaway) {
 			fprintf(g_out, "HANG kind=%s step=%llu task=%d phase=%s\n",
-				runaway ? "runaway_output" : "cpu", (unsigned long long)st,
+				runaway ? "runaway_output" : "cpu", (unsigned long long)(st & ((1ULL << 40) - 1)),
 				g_sim.cur, g_phase);
 			fflush(g_out);
 			_exit(98);
